@@ -149,6 +149,21 @@ def decide(rep, name, goal, cvars, what, concrete=None):
             rep.unreproduced(name, {'c': c.tolist(), 'dev': dev})
 
 
+def c2p(cv, N):
+    """monomial coefficients of a Chebyshev series, padded / cut to length N"""
+    out = np.zeros(N)
+    q = np.polynomial.chebyshev.cheb2poly(np.asarray(cv, dtype=float)) if len(cv) > 0 else np.zeros(0)
+    out[: min(N, len(q))] = q[:N]
+    return out
+
+
+def pder(m, p, N):
+    out = np.zeros(N)
+    q = np.polynomial.polynomial.polyder(np.asarray(m, dtype=float), p) if len(m) > p else np.zeros(1)
+    out[: min(N, len(q))] = q[:N]
+    return out
+
+
 def basis_scale(basis, N):
     return sum(abs(b) for k in range(N) for b in basis[k])
 
@@ -169,7 +184,7 @@ def cheb_case(rep, N):
             ex = [t * rv(1 / fac**p) for t in mono_deriv(to_mono(Tb, c), p)]
             tol = rv(Fraction(1, 10**10) * sT * N**(2 * p) / fac**p)
             decide(rep, name, close(got, ex, tol), c, 'chebychev/differentiation',
-                   lambda cv, D=D, p=p, fac=fac: float(np.abs(np.polynomial.chebyshev.cheb2poly(D @ cv)[: N] - np.pad(np.polynomial.polynomial.polyder(np.polynomial.chebyshev.cheb2poly(cv), p), (0, N))[: N] / float(fac)**p).max()))
+                   lambda cv, D=D, p=p, fac=fac: float(np.abs(c2p(D @ cv, N) - pder(c2p(cv, N), p, N) / float(fac)**p).max()))
         # Dirichlet rows on any interval (values at the mapped points s = -1, 0, 1)
         for s in (-1, 0, 1):
             row = np.asarray(H.get_Dirichlet_BC_row(s), dtype=float)
@@ -195,7 +210,7 @@ def cheb_case(rep, N):
     tol = rv(Fraction(1, 10**10) * sT * N)
     goal = z3.And(close(mono_deriv(anti), ex, tol), z3.And(anti[0] <= tol, -anti[0] <= tol))
     decide(rep, f'cheb/N{N}/integration-matrix', goal, c[: N - 1], 'chebychev/integration-matrix',
-           lambda cv, S=S: float(np.abs(np.polynomial.chebyshev.chebder(np.append(S @ np.append(cv, 0), 0))[: N] - np.append(cv, 0)).max()))
+           lambda cv, S=S: float(np.abs(np.pad(np.polynomial.chebyshev.chebder(S @ np.append(cv, 0)), (0, N))[: N] - np.append(cv, 0)).max()))
     for s, nm in ((-1, 'left'), (1, 'right')):
         row = np.real(np.asarray(H.get_Neumann_BC_row(s))).astype(float)
         got = sum(rv(row[k]) * c[k] for k in range(N))
@@ -213,7 +228,7 @@ def cheb_case(rep, N):
     U2T = np.asarray(H.get_conv('U2T').todense())
     tol = rv(Fraction(1, 10**10) * basis_scale(Ub, N))
     decide(rep, f'cheb/N{N}/T2U', close(to_mono(Ub, matvec(T2U, c)), to_mono(Tb, c), tol), c, 'chebychev/T2U',
-           lambda cv: float(np.abs(T2U @ cv - np.linalg.solve(np.array([[float(x) for x in (Ub[k] + [0] * N)[:N]] for k in range(N)]).T, np.polynomial.chebyshev.cheb2poly(cv) if N > 1 else cv)).max()) if N > 2 else 0.0)
+           lambda cv: float(np.abs(T2U @ cv - np.linalg.solve(np.array([[float(x) for x in (Ub[k] + [0] * N)[:N]] for k in range(N)]).T, c2p(cv, N))).max()))
     decide(rep, f'cheb/N{N}/U2T-inverts-T2U', close(matvec(U2T, matvec(T2U, c)), c, rv(Fraction(1, 10**10) * N)), c, 'chebychev/conversion-inverse',
            lambda cv: float(np.abs(U2T @ (T2U @ cv) - cv).max()))
     rep.sample({'case': f'cheb/N{N}', 'free': 'Chebyshev coefficient vector in [-1,1]^N', 'oracle': 'exact monomial calculus'}, limit=4)
@@ -235,7 +250,7 @@ def ultra_case(rep, N):
             tol = rv(Fraction(1, 10**10) * basis_scale(Cb, N) * N**p * math.factorial(p) * 2**p / fac**p)
             Cm = np.array([[float(x) for x in (Cb[k] + [0] * N)[:N]] for k in range(N)]).T
             decide(rep, f'ultra/N{N}/[{x0},{x1}]/D{p}', close(got, ex, tol), c, 'ultraspherical/differentiation',
-                   lambda cv, D=D, p=p, fac=fac, Cm=Cm: float(np.abs(Cm @ (D @ cv) - np.pad(np.polynomial.polynomial.polyder(np.polynomial.chebyshev.cheb2poly(cv) if N > 1 else cv, p), (0, N))[: N] / float(fac)**p).max()))
+                   lambda cv, D=D, p=p, fac=fac, Cm=Cm: float(np.abs(Cm @ (D @ cv) - pder(c2p(cv, N), p, N) / float(fac)**p).max()))
         # basis conversions C^(l_in) -> C^(l_out) and their inverses
         for (pi, po) in ((0, 1), (1, 2), (0, 2), (2, 3), (0, 3)):
             Bin, Bout = gegenbauer(pi, N), gegenbauer(po, N)
